@@ -184,6 +184,18 @@ class Tap(object):
         self.frames = []            # every frame emitted so far
         self.nbytes_out = 0
         self.closed_by_exc = False
+        self.watch_events = False   # keep every returned event list with a digest taken at return time
+        self.returned = []
+
+    def changed_after_return(self):
+        """Event lists whose content no longer reads as it did when receive_data returned them (the library kept a
+        reference and went on changing it).  Returns [(call index, digest then, digest now)]."""
+        out = []
+        for i, (value, then) in enumerate(self.returned):
+            now = repr(canon_events(value))
+            if now != then:
+                out.append((i, then, now))
+        return out
 
     def clone(self):
         t = Tap.__new__(Tap)
@@ -195,6 +207,8 @@ class Tap(object):
         t.frames = list(self.frames)
         t.nbytes_out = self.nbytes_out
         t.closed_by_exc = self.closed_by_exc
+        t.watch_events = False
+        t.returned = []
         return t
 
     def call(self, op, *args, **kw):
@@ -218,6 +232,8 @@ class Tap(object):
                         rec['code'] = int(code)
                     except Exception:
                         rec['code'] = repr(code)
+        if self.watch_events and isinstance(value, list) and value:
+            self.returned.append((value, repr(canon_events(value))))
         out = b''
         frames = []
         if drain:
